@@ -11,7 +11,6 @@ namespace Ggql.Intro
 
 /-- the arms of the pinned tree where it departs from the specification -/
 def pinnedDev : GoT → MF → Option Arm
-  | .object, .interfaces => some .interfacesPlain            -- D37: a plain []*Interface
   | .object, .name => some .nameOrSchema                     -- the nameless schema object says "schema": never reachable from a named type
   | .list, .name | .nonNull, .name => some .wrapperName      -- D53: wrappers carry a name
   | .list, .description => some (.const "LIST")              -- D53: … and a description
@@ -84,11 +83,11 @@ theorem C17_dev_default :
       = .dflt (.str "Who") ∧ rawDefault (.str "Who") = (.str "Who", 0) ∧ textDefault (.str "Who") = (.str "\"Who\"", 0) := by
   refine ⟨by decide +kernel, rfl, by decide +kernel, rfl, rfl⟩
 
-/-- D37: `interfaces` is a plain slice, so the current table is not `PlainFree` -/
-theorem C17_dev_any :
-    ¬ PlainFree (fetch pinnedCfg (armFnOf Gen.introTable) wS) := by
-  intro h
-  exact h (.type (.named "T")) .interfaces false (typeNodes ["Node"]) (by decide +kernel)
+/-- D37 (repaired in /repo): `interfaces` is a list that resolves its own members, so the table regenerated on
+this run is `PlainFree` at the witness: a root resolver is never handed the slice -/
+theorem C17_interfaces_listed :
+    fetch pinnedCfg (armFnOf Gen.introTable) wS (.type (.named "T")) .interfaces false =
+    describe wS (.type (.named "T")) .interfaces false := by decide +kernel
 
 /-- non-vacuity of `unroll_faithful`: a three-deep wrapper over a defined type -/
 example : readType (describe wS) 4 (.type (.nonNull (.list (.nonNull (.named "ID"))))) =
